@@ -398,6 +398,12 @@ NEXT_STORE:
 }
 
 func (d *Datastore) Subscribe(req *sdcpb.SubscribeRequest, stream sdcpb.DataServer_SubscribeServer) error {
+	// the sample interval becomes the period of a ticker, which panics on periods that are not positive
+	for _, subsc := range req.GetSubscription() {
+		if iv := subsc.GetSampleInterval(); iv == 0 || iv > math.MaxInt64 {
+			return status.Errorf(codes.InvalidArgument, "invalid sample interval %d", iv)
+		}
+	}
 	ctx, cancel := context.WithCancel(stream.Context())
 	defer cancel()
 	var err error
